@@ -14,7 +14,7 @@
 From Coq Require Import Lia Permutation.
 From Ctg Require Import Base Net Einsum Program BaseFacts NetFacts ProgramFacts TreeState TreeStateFacts TreeStateInv
                         TreeStatePre TreeStateProg TreeStateValue TreeStateRec TreeStateRecipes TreeStateReady
-                        TreeStatePreproc TreeStateReady2 TreeStateTotals TreeStateDfs TreeStatePre2 TreeStateFinal.
+                        TreeStatePreproc TreeStateReady2 TreeStateTotals TreeStateDfs TreeStatePre2 TdotFacts TreeStateTdot TreeStateFinal.
 Open Scope nat_scope.
 
 Theorem C02fin_complete_sound : forall n, 2 <= NN n -> forall s, children_ok n (children s) -> complete_b n s = true ->
@@ -54,13 +54,52 @@ Theorem C02fin_history_value : forall n tr pe nodes arr e0,
 Proof. exact final_history_value. Qed.
 Print Assumptions C02fin_history_value.
 
+(* ---- the tensordot execution path, any admissible (e.g. sorted) axis orders ----
+   srun_x n s arr e0 pe t (Proofs/TreeStateTdot.v): what the Contractor executes, read off the caches of the
+   state: at a node, tensordot(L, R, cached tensordot_axes) followed by transpose(cached tensordot_perm) when
+   prefer_einsum is off and the cached can_dot is True (and both recipes are cached -- they are:
+   C02fin_extract_caches_tensordot), else einsum with the cached index orders. *)
+Theorem C02fin_td_perm_is_program_perm : forall li ri pi, TreeState.td_perm li ri pi = TdotFacts.td_perm li ri pi.
+Proof. exact td_perm_eq. Qed.
+Print Assumptions C02fin_td_perm_is_program_perm.
+
+Theorem C02fin_extract_caches_tensordot : forall n, 2 <= NN n -> NoDup (output n) ->
+  forall nodes s, GoodSt n s -> (forall e, In e nodes -> nget (fst e) (children s) <> None) ->
+  err (extract n false nodes s) = false -> forall e, In e nodes -> td_cached (extract n false nodes s) (fst e).
+Proof. exact extract_caches_td. Qed.
+Print Assumptions C02fin_extract_caches_tensordot.
+
+(* every node: the mixed execution holds the same array (shape and every entry) as the einsum path *)
+Theorem C02fin_exec_node_eq_einsum : forall n, 2 <= NN n -> forall s, InvC n s -> PA n s -> PB s ->
+  sorted_keys_b s = true -> (forall p l r, nget p (children s) = Some (l, r) -> filled3 s p l r) ->
+  forall arr e0 pe f nd t, tree_of f (children s) nd = Some t -> ss nd -> rd i_inds s nd <> None -> good_node n nd ->
+  node_of t = nd /\
+  sarr_eq (srun_x n s arr e0 pe t) (map (dim n) (cinds s t), srun_sub n s arr e0 t).
+Proof. exact sub_x_eq. Qed.
+Print Assumptions C02fin_exec_node_eq_einsum.
+
+Theorem C02fin_history_exec : forall n, 2 <= NN n -> NoDup (output n) ->
+  forall tr pe nodes arr e0,
+  wf_net_b n = true -> pre2_trace_b n tr (init_state n) = true -> tail_ok_b tr = true ->
+  let s1 := run n tr (init_state n) in
+  let s := extract_all n pe nodes s1 in
+  nodes_ok_b s1 nodes = true -> sorted_keys_b s = true -> err s = false -> complete_b n s = true ->
+  exists l r, tree_of (tfuel s) (children s) (seq 0 (NN n)) = Some (Node l r) /\
+    fst (srun_x n s arr e0 pe (Node l r)) = map (dim n) (filter (fun j => negb (memb j (removed (sliced s)))) (output n)) /\
+    forall e, agree_removed (sliced s) e0 e ->
+      snd (srun_x n s arr e0 pe (Node l r)) (map e (filter (fun j => negb (memb j (removed (sliced s)))) (output n)))
+      = einsum_spec n (sliced s) arr e.
+Proof. exact final_history_exec. Qed.
+Print Assumptions C02fin_history_exec.
+
 (* non-vacuity: 'aab,bc,cd->d': build, recipe, slice b, query, restore b, total_flops after forgetting the
    tracked totals is impossible in the model, so: stats, max_size, then extract_contractions *)
 Definition exf := mkNet [[0;0;1]; [1;2]; [2;3]] [3] [(0,2%Z);(1,3%Z);(2,2%Z);(3,2%Z)].
 Definition exf_tr : list prim :=
   [PPair [0] [1] None None None; PPair [0;1] [2] None None None;
    PTotalFlops; PMaxSize; PTotalWrite;
-   PGet GEq [0;1;2]; PRemoveInd 1 None; PGet GLegs [0]; PRestoreInd 1; PStats true].
+   PGet GEq [0;1;2]; PRemoveInd 1 None; PGet GLegs [0]; PRestoreInd 1; PStats true;
+   PSortInds PrFlops true true false].
 Definition exf_nodes : list (node * (node * node)) := [([0;1], ([0], [1])); ([0;1;2], ([0;1], [2]))].
 Definition exf_ok (pe : bool) : bool :=
   let s := extract_all exf pe exf_nodes (run exf exf_tr (init_state exf)) in
@@ -70,6 +109,8 @@ Example C02fin_nonvacuous :
   wf_net_b exf = true /\ pre2_trace_b exf exf_tr (init_state exf) = true /\ tail_ok_b exf_tr = true
   /\ nodes_ok_b (run exf exf_tr (init_state exf)) exf_nodes = true
   /\ exf_ok true = true /\ exf_ok false = true
+  (* with prefer_einsum = False the tensordot path is really taken at the sorted node [0;1] *)
+  /\ (match use_td (extract_all exf false exf_nodes (run exf exf_tr (init_state exf))) false [0;1] with Some _ => true | None => false end) = true
   (* total_flops on an incomplete tree is rejected *)
   /\ primA_pre2_b exf PTotalFlops (run exf [PPair [0] [1] None None None] (init_state exf)) = false
   /\ trk_flops (run exf [PPair [0] [1] None None None; PPair [0;1] [2] None None None; PTotalFlops] (init_state exf)) = true.
